@@ -174,7 +174,7 @@ Definition explode (s : bytes) : list val :=
                      | None => map (fun b => vint (- bz b)) (snd p)
                      end) (chunks s).
 
-(** [None]: overflow of [-i] (panic in debug builds) *)
+(** never [None]: [-i] is computed with [checked_neg] *)
 Fixpoint implode (xs : list val) : option (res bytes) :=
   match xs with
   | [] => Some (Ok [])
@@ -183,8 +183,6 @@ Fixpoint implode (xs : list val) : option (res bytes) :=
       | Num n =>
           match as_isize n with
           | Some i =>
-              if i =? isize_min then None
-              else
                 let here :=
                   if (0 <=? - i) && (- i <=? 255) then Ok [zb (- i)]
                   else if is_scalar i then Ok (encode1 i)
